@@ -14,6 +14,7 @@ import (
 	"encoding/json"
 	"errors"
 	"fmt"
+	"google.golang.org/grpc/metadata"
 	"io"
 	"net/http"
 	"net/http/httptest"
@@ -131,6 +132,9 @@ type Case struct {
 	InMemory bool `json:"in_memory,omitempty"`
 	// Stream scripts a call of a streaming method (websocket over HTTP, gRPC streams).
 	Stream *StreamSpec `json:"stream,omitempty"`
+	// CallerMD: (gRPC) the context given to the generated client already carries
+	// outgoing metadata, as it does behind request-ID or tracing interceptors.
+	CallerMD bool `json:"caller_md,omitempty"`
 }
 
 // StubSpec tells the stub service what to do.
@@ -818,6 +822,9 @@ func (h *H) call(cs *caseState) {
 	}
 	cctx, cancel := context.WithCancel(context.WithValue(context.Background(), ctxKey, cs))
 	defer cancel()
+	if c.CallerMD && c.Transport == "grpc" {
+		cctx = metadata.AppendToOutgoingContext(cctx, "x-verif-caller", "present")
+	}
 	res, cerr := ep(cctx, payload)
 	if sm, ok := streamOf(res); ok && cerr == nil {
 		if c.Stream == nil {
